@@ -349,7 +349,9 @@ static void op_crash_sync(Exec& x, const Json& op, int)
 					if (it == now.end() || it->second.data != kv.second.data) { ++bad; if (ex.empty()) ex = kv.first; }
 				}
 				x.probe("crash.recoverability_checked");
-				if (bad) x.violation("C07", "synced-file-lost-after-interruption", when + strf(": hashsize=%d: after losing disk %s, %u previously synced files not recovered (e.g. %s)", x.sb.cfg.hash_size, x.sb.cfg.disks[dv].name.c_str(), bad, ex.c_str()), focus);
+				std::string icmd = spec.cmd;
+				for (auto& o : spec.opts) icmd += " " + o;
+				if (bad) x.violation("C07", "synced-file-lost-after-interruption", when + strf(": hashsize=%d: after losing disk %s, %u previously synced files not recovered (e.g. %s) [interrupted command: %s ]", x.sb.cfg.hash_size, x.sb.cfg.disks[dv].name.c_str(), bad, ex.c_str(), icmd.c_str()), focus);
 			}
 		}
 	}
